@@ -261,7 +261,7 @@ func TestConcurrentReaders(t *testing.T) {
 		if err != nil {
 			t.Fatalf("reference session: %v", err)
 		}
-		chunks := openWire(t, "wire", rs, append(append([]byte(nil), auth...), wire...))
+		chunks := openWire(t, "wire", rs, append(append([]byte(nil), auth...), wire...), 1)
 		var stream []byte
 		for _, c := range chunks {
 			stream = append(stream, c...)
